@@ -286,6 +286,9 @@ impl<T: Transport> H1Client<T> {
         if spec.upload > 0 {
             head += &format!("Content-Length: {}\r\n", spec.upload);
         }
+        if let Some(c) = spec.cookie() {
+            head += &format!("Cookie: {c}\r\n");
+        }
         head += "\r\n";
         let head = head.into_bytes();
         let body = keystream(spec.id ^ UPLOAD_SALT, 0, spec.upload);
@@ -555,6 +558,10 @@ pub fn run_h2(c: &mut H2Conn<TlsClient>, reqs: &[ReqSpec]) -> (Vec<Outcome>, Vec
         let mut extra: Vec<(&str, &str)> = vec![("x-req-id", &idh)];
         if r.upload > 0 {
             extra.push(("content-length", &cl));
+        }
+        let cookie = r.cookie().unwrap_or_default();
+        if !cookie.is_empty() {
+            extra.push(("cookie", &cookie));
         }
         let hs = h2::request_headers(r.method(), "https", r.authority(), &r.path(), &extra);
         let body = keystream(r.id ^ UPLOAD_SALT, 0, r.upload);
